@@ -959,6 +959,7 @@ fn printf_unescape(fmt: &str) -> Vec<FmtPiece> {
                 match cs[i] {
                     's' => out.push(FmtPiece::Size),
                     'p' => out.push(FmtPiece::Path),
+                    'P' => out.push(FmtPiece::RelPath),
                     'f' => out.push(FmtPiece::Base),
                     'T' if i + 1 < cs.len() && cs[i + 1] == '@' => {
                         i += 1;
@@ -966,6 +967,7 @@ fn printf_unescape(fmt: &str) -> Vec<FmtPiece> {
                     }
                     '%' => lit.push(b'%'),
                     c => {
+                        unsupported(&format!("find -printf directive %{c}"));
                         lit.push(b'%');
                         let mut b = [0u8; 4];
                         lit.extend_from_slice(c.encode_utf8(&mut b).as_bytes());
@@ -987,6 +989,8 @@ fn printf_unescape(fmt: &str) -> Vec<FmtPiece> {
 }
 
 enum FmtPiece {
+    /// `%P`: the path with the starting point (and one `/`) removed
+    RelPath,
     Lit(Vec<u8>),
     Size,
     Path,
@@ -1027,6 +1031,7 @@ fn cmd_find(args: &[String], out: &mut Out) -> i32 {
             }
             other => {
                 eprint_proc(&format!("find: unknown predicate `{other}'\n"));
+                unsupported(&format!("find predicate {other}"));
                 return 1;
             }
         }
@@ -1034,7 +1039,7 @@ fn cmd_find(args: &[String], out: &mut Out) -> i32 {
     let mut status = 0;
     let mut buf: Vec<u8> = Vec::new();
     for s in starts {
-        find_walk(&s, want_type, &fmt, print0, &mut buf, &mut status);
+        find_walk(&s, &s, want_type, &fmt, print0, &mut buf, &mut status);
     }
     if out.write_all(&buf).is_err() {
         return 1;
@@ -1043,6 +1048,7 @@ fn cmd_find(args: &[String], out: &mut Out) -> i32 {
 }
 
 fn find_walk(
+    start: &str,
     path: &str,
     want: Option<char>,
     fmt: &Option<Vec<FmtPiece>>,
@@ -1073,6 +1079,10 @@ fn find_walk(
                         FmtPiece::Lit(l) => buf.extend_from_slice(l),
                         FmtPiece::Size => buf.extend_from_slice(meta.len().to_string().as_bytes()),
                         FmtPiece::Path => buf.extend_from_slice(path.as_bytes()),
+                        FmtPiece::RelPath => {
+                            let rel = path.strip_prefix(start).unwrap_or(path);
+                            buf.extend_from_slice(rel.strip_prefix('/').unwrap_or(rel).as_bytes());
+                        }
                         FmtPiece::Base => {
                             buf.extend_from_slice(path.rsplit('/').next().unwrap_or(path).as_bytes())
                         }
@@ -1101,7 +1111,7 @@ fn find_walk(
                 for e in rd.flatten() {
                     let name = e.file_name().to_string_lossy().into_owned();
                     let child = format!("{}/{}", path.trim_end_matches('/'), name);
-                    find_walk(&child, want, fmt, print0, buf, status);
+                    find_walk(start, &child, want, fmt, print0, buf, status);
                 }
             }
             Err(e) => {
